@@ -26,8 +26,10 @@ import json
 import os
 import random
 import re
+import shutil
 import subprocess
 import sys
+import tempfile
 from typing import Any, Optional
 
 from hypothesis import strategies as st
@@ -71,13 +73,14 @@ WORKER = os.path.join(runner.VERIF_DIR, "vlib", "c17_worker.py")
 # =========================================================================== the pool of children
 
 class _Child:
-    def __init__(self, index: int, hashseed: int, garbage: int) -> None:
+    def __init__(self, index: int, hashseed: int, garbage: int, scratch: str) -> None:
         self.index = index
         self.hashseed = hashseed
         self.garbage = garbage
         env = dict(os.environ)
         env["PYTHONHASHSEED"] = str(hashseed)
         env["VERIF_REPO"] = runner.REPO_DIR
+        env["VERIF_C17_SCRATCH"] = scratch
         stderr = None if os.environ.get("VERIF_C17_DEBUG") else subprocess.DEVNULL
         self.proc = subprocess.Popen([sys.executable, "-u", WORKER, str(index), str(garbage)],
                                      stdin=subprocess.PIPE, stdout=subprocess.PIPE, stderr=stderr, env=env,
@@ -121,9 +124,10 @@ class Pool:
         self.pid = os.getpid()
         self.counter = 0
         self.children: list = []
+        self.scratch = tempfile.mkdtemp(prefix="verif_c17_")      # per-region GenBank files of the children
         try:
             for index, seed in enumerate(hashseeds):
-                self.children.append(_Child(index, seed, index))
+                self.children.append(_Child(index, seed, index, self.scratch))
             for child in self.children:
                 child.send({"op": "ping"})
             for child in self.children:
@@ -159,6 +163,7 @@ class Pool:
         for child in self.children:
             child.close()
         self.children = []
+        shutil.rmtree(self.scratch, ignore_errors=True)
 
 
 _POOL: Optional[Pool] = None
@@ -283,6 +288,7 @@ def _genbank_diff(one: str, two: str, out: list) -> None:
 
 TEXT_STAGES_JSON = {"results_json"}
 TEXT_STAGES_GENBANK = {"genbank"}
+FILE_STAGES_GENBANK = {"region_genbank"}       # {file name: GenBank text}
 
 
 def _differences(stage: str, one: Any, two: Any) -> list:
@@ -293,6 +299,12 @@ def _differences(stage: str, one: Any, two: Any) -> list:
             out.append(("", "text_only", one[:200], two[:200]))
     elif stage in TEXT_STAGES_GENBANK and isinstance(one, str) and isinstance(two, str):
         _genbank_diff(one, two, out)
+    elif stage in FILE_STAGES_GENBANK and isinstance(one, dict) and isinstance(two, dict):
+        if list(one) != list(two):
+            out.append(("files", "keys", list(one), list(two)))
+        for name, text in one.items():
+            if name in two and text != two[name]:
+                _genbank_diff(text, two[name], out)
     else:
         _json_diff(one, two, "", out)
     return out
@@ -651,7 +663,7 @@ def _gene_functions_order(sub, spec, clause, detail) -> bool:
         return False
     where, kind = detail.get("where"), detail.get("kind")
     return ((clause == "cds_annotations_differs" and where == "[].gene_functions" and kind == "list_order")
-            or (clause == "genbank_differs" and where == "CDS./gene_functions"
+            or (clause in ("genbank_differs", "region_genbank_differs") and where == "CDS./gene_functions"
                 and kind in ("lines_reordered", "lines_changed") and "cds_annotations" in (detail.get("upstream") or []))
             or (clause == "results_json_differs" and where == "records[].features[].qualifiers.gene_functions"
                 and kind == "list_order"))
@@ -696,6 +708,8 @@ def _candidate_protocluster_order(sub, spec, clause, detail) -> bool:
         product order, rule order, their GenBank/JSON renderings) differs """
     if sub not in ("detect", "areas") or not _equal_coordinate_case(detail):
         return False
+    if clause == "region_genbank_differs":
+        clause = "genbank_differs"
     return (detail.get("where"), detail.get("kind")) in _CANDIDATE_ORDER.get(clause, ())
 
 
@@ -716,7 +730,7 @@ def _equal_location_candidate_order(sub, spec, clause, detail) -> bool:
     where = detail.get("where", "")
     if clause == "areas_differs":
         return where.startswith("candidates[].") or where == "regions[].candidates"
-    if clause == "genbank_differs":
+    if clause in ("genbank_differs", "region_genbank_differs"):
         return where.startswith("cand_cluster./") or where == "region./candidate_cluster_numbers"
     if clause == "results_json_differs":
         return bool(_CANDIDATE_QUALIFIER.match(where)) or where.startswith("records[].areas[].candidates[]")
